@@ -615,7 +615,19 @@ class Analyzer(Analysis):
                     pass
                 else:
                     st.store[key + k[len(src_key):]] = v
+                    # where a field of a moved struct came from moves with it
+                    if not key.startswith("(*") and "[" not in k and (k in self.origin or k.startswith("(*_")):
+                        self.origin[key + k[len(src_key):]] = self.origin.get(k, k)
         self.decompose(st, key, val)
+        if rv["k"] == "agg" and rv.get("ak") in ("adt", "tuple") and not key.startswith("(*"):
+            # a struct / tuple built from copies: each field remembers the place it was copied from (a helper value such as
+            # `FixedPart { priority: self.priority, .. }` written field by field is `self.priority` written)
+            fnames = rv.get("fields") if rv.get("ak") == "adt" else [str(i) for i in range(len(rv["ops"]))]
+            for f0, o0 in zip(fnames or [], rv["ops"]):
+                if o0.get("o") in ("copy", "move"):
+                    sk = self.key_of(st, o0["pl"], bi, si)
+                    if "[" not in sk:
+                        self.origin["%s.%s" % (key, f0)] = self.origin.get(sk, sk)
         if val is None and dest_ty["k"] in ("int", "bool", "char"):
             st.store[key] = ("lin", self.sym("v%d.%d" % (bi, si), int_range(dest_ty)))
         # track Ok/Err tags flowing into the return place
@@ -1226,6 +1238,18 @@ class Analyzer(Analysis):
                     if self.final:
                         self.events.append(ev)
                     return
+            elif name in ("<std::slice::Iter<'a, T> as std::iter::Iterator>::position", "<std::slice::Iter<'a, T> as std::iter::Iterator>::rposition") \
+                    and vals and vals[0] is not None and vals[0][0] == "ref" and (st.store.get(vals[0][1]) or (None,))[0] == "iter":
+                # Some(i): an index into the slice the iterator runs over
+                ln = self.length_of(st, st.store[vals[0][1]][1])
+                i = self.sym("pos%d" % bi, (0, USIZE_HI))
+                cs = "opt%d" % bi
+                self.pending[cs] = {"variant_facts": {1: [i + 1 - ln] if ln is not None else []}}
+                self.write(st, dest_key, ("callres", cs))
+                st.store[dest_key + "@Some.0"] = ("lin", i)
+                if self.final:
+                    self.events.append(ev)
+                return
             elif name == "std::mem::replace" and vals and vals[0] is not None and vals[0][0] == "ref":
                 K = vals[0][1]
                 result = st.store.get(K)
@@ -2149,11 +2173,38 @@ class Analyzer(Analysis):
                 continue
             if all(const_variant(rv) for rv in rvs):
                 out.append(l)
+        # a bool field of a named local struct that only ever receives constants (`walker.following_pointer = true` where the
+        # loop state was gathered into a private struct): the same kind of flag, addressed by its store key
+        fld_assign = {}
+        for bl in b.blocks:
+            for s in bl["stmts"]:
+                if s["s"] != "assign":
+                    continue
+                pp = s["pl"]["p"]
+                if pp and isinstance(pp[-1], dict) and "f" in pp[-1] and pp[-1].get("adt") and b.ty(s["pl"]["t"])["k"] == "bool" and \
+                        all(x == "d" for x in pp[:-1]):
+                    rv = s["rv"]
+                    fld_assign.setdefault((pp[-1]["adt"], pp[-1]["n"]), []).append(
+                        rv["k"] == "use" and rv["op"]["o"] == "const" and rv["op"]["k"]["c"] == "int")
+                if s["rv"]["k"] == "agg" and s["rv"].get("ak") == "adt" and s["rv"].get("fields"):
+                    for f0, o0 in zip(s["rv"]["fields"], s["rv"]["ops"]):
+                        k0 = (s["rv"]["adt"], f0)
+                        if k0 in fld_assign or True:
+                            is_bool = (o0.get("o") == "const" and b.ty(o0["k"]["t"])["k"] == "bool") or \
+                                (o0.get("o") in ("copy", "move") and b.ty(o0["pl"]["t"])["k"] == "bool")
+                            if is_bool:
+                                fld_assign.setdefault(k0, []).append(o0.get("o") == "const" and o0["k"].get("c") == "int")
+        for (adt_name, fname), cs in sorted(fld_assign.items()):
+            if not all(cs) or len(cs) < 2 or not str(adt_name).startswith(("simple_dns", "simple_mdns", "fx_")):
+                continue
+            for l in sorted(names):
+                if l > b.argc and b.local_ty(l)["k"] == "adt" and b.local_ty(l).get("name") == adt_name:
+                    out.append("_%d.%s" % (l, fname))
         # source-level flags multiply the partitions (kept to three); the flag of an inlined helper is non-zero only between the
         # helper's return and the caller's test of it, so any number of them adds partitions only locally
         helper = [l for l in out if str(names.get(l, "")).startswith("inlined_helper_failed")]
         src = [l for l in out if l not in helper]
-        return sorted(sorted(src)[:3] + sorted(helper)[:16])
+        return sorted(src, key=str)[:3] + sorted(helper)[:16]
 
     def variant_index(self, short, variant):
         """discriminant of `variant` of the workspace enum whose path ends in `short` (None when ambiguous / unknown)"""
@@ -2178,7 +2229,7 @@ class Analyzer(Analysis):
             nm = self.b.local_names()
             transient = self._transient_modes = set(l for l in self.modes if str(nm.get(l, "")).startswith("inlined_helper_failed"))
         for l in self.modes:
-            v = st.store.get("_%d" % l)
+            v = st.store.get(l if isinstance(l, str) else "_%d" % l)
             if v is None and l in transient:
                 # a helper's partition flag is written before it is read; "not yet written" and "cleared" are the same partition
                 key.append(0)
@@ -2204,7 +2255,8 @@ class Analyzer(Analysis):
         def transition(k0, k1):
             return any(p and a is not None and a != b2 for p, a, b2 in zip(persistent, k0, k1))
         self.live_in, self.always_live = self.liveness()
-        self.always_live = set(self.always_live) | set(self.modes)     # partition flags survive joins even when never read
+        # partition flags survive joins even when never read
+        self.always_live = set(self.always_live) | set(int(m[1:].split(".")[0]) if isinstance(m, str) else m for m in self.modes)
         self.cands = {}
         self.join_info = {}
         self.dead_cands = {}
